@@ -12,6 +12,7 @@ import (
 	"context"
 	"errors"
 	"fmt"
+	"os"
 	"runtime"
 	"strings"
 	stdsync "sync"
@@ -49,6 +50,10 @@ type Script struct {
 	Seed      uint64   `json:"seed"`           // yields / delays inside the data source
 	StaleFork bool     `json:"stale_fork"`     // stale latest header = tip of the chain before the last reorg
 	Expect    string   `json:"expect"`         // "" (converges) | "stuck" (scenario known not to converge)
+	// HoldAt > 0: the first fetcher request for height HoldAt is answered only after the request for
+	// HoldAt+1 has been answered (from the then-current chain) and the source has replaced every block
+	// from HoldAt on: responses out of order with a reorg in between
+	HoldAt int `json:"hold_at"`
 }
 
 // ---------- the source ----------
@@ -107,6 +112,8 @@ type Run struct {
 	fserved  []*served
 	obs      []felt.Felt // observed local chain (hashes), updated in the store / revert hooks
 	problems []string
+	holdDone chan struct{}
+	holdUsed bool
 	local    *chain.Node
 	nhSub    sync.NewHeadSubscription
 	roSub    sync.ReorgSubscription
@@ -305,6 +312,19 @@ func (d DS) BlockByNumber(ctx context.Context, n uint64) (sync.CommittedBlock, e
 	r := d.r
 	kind := callerKind()
 	ign := r.yield()
+	if h := uint64(r.sc.HoldAt); h > 0 && kind == "fetch" && n == h {
+		r.mu.Lock()
+		r.holdUsed = true // a fetcher is waiting for its successor's response
+		r.mu.Unlock()
+		select {
+		case <-r.holdDone:
+		case <-ctx.Done():
+		case <-time.After(2 * time.Second):
+		}
+		r.mu.Lock()
+		r.holdUsed = false
+		r.mu.Unlock()
+	}
 	r.mu.Lock()
 	r.reqs++
 	r.applyActions()
@@ -360,6 +380,16 @@ func (d DS) BlockByNumber(ctx context.Context, n uint64) (sync.CommittedBlock, e
 		r.log = append(r.log, Ev{K: "fcor", H: n, B: sb, Cor: true, D: ck})
 	} else {
 		r.log = append(r.log, Ev{K: "fok", H: n, B: sb})
+	}
+	if h := uint64(r.sc.HoldAt); h > 0 && n == h+1 && r.holdUsed {
+		select {
+		case <-r.holdDone:
+		default: // the successor is out; now replace the chain from HoldAt on and release the held request
+			d := len(r.cur) - int(h)
+			r.reorg(d, d+1)
+			r.hist["action:reorg-between-out-of-order-responses"]++
+			close(r.holdDone)
+		}
 	}
 	r.mu.Unlock()
 	return cb, nil
@@ -571,7 +601,7 @@ func runScript(sc *Script) *outcome {
 	prev := runtime.GOMAXPROCS(sc.Procs)
 	defer runtime.GOMAXPROCS(prev)
 	start := time.Now()
-	r := &Run{sc: sc, byHash: map[felt.Felt]*SBlock{}, rng: hx.NewRNG(sc.Seed), hist: map[string]int{}}
+	r := &Run{sc: sc, byHash: map[felt.Felt]*SBlock{}, rng: hx.NewRNG(sc.Seed), hist: map[string]int{}, holdDone: make(chan struct{})}
 	r.local = chain.NewNode(nil, sc.NewState)
 	for _, a := range sc.Actions {
 		r.horizon = max(r.horizon, a.At)
@@ -683,6 +713,7 @@ func analyse(or *hx.Oracle, o *outcome) (fs []finding, stats map[string]int, mod
 	lastVer := map[uint64]*SBlock{}
 	var ilog, itr []string
 	var inferred []*SBlock
+	cause := ""
 	nStore := 0
 	rejected := false
 	send := func(i int, ev string) bool {
@@ -707,6 +738,10 @@ func analyse(or *hx.Oracle, o *outcome) (fs []finding, stats map[string]int, mod
 		}
 		inferred = append(inferred, cand)
 		stats["store-parent-mismatch"]++
+		cause = "successor-on-source"
+		if int(cand.Num) >= len(msrc) || msrc[cand.Num] != cand {
+			cause = "successor-replaced" // the verified successor is itself no longer on the source's chain
+		}
 		return send(i, "mism "+cand.model(true))
 	}
 	for i, e := range r.log {
@@ -721,8 +756,11 @@ func analyse(or *hx.Oracle, o *outcome) (fs []finding, stats map[string]int, mod
 		case "reorg":
 			send(i, fmt.Sprintf("reorg %d", e.D))
 			msrc = msrc[:len(msrc)-e.D]
-		case "fok", "ferr", "fcor", "chk":
+		case "fok", "ferr", "fcor":
 			send(i, fmt.Sprintf("%s %d", e.K, e.H))
+		case "chk":
+			send(i, fmt.Sprintf("%s %d", e.K, e.H))
+			cause = "latest-header"
 		case "lat", "laterr":
 			send(i, e.K)
 		case "stale":
@@ -774,6 +812,7 @@ func analyse(or *hx.Oracle, o *outcome) (fs []finding, stats map[string]int, mod
 			ilog = append(ilog, "r="+b.model(true))
 			if int(b.Num) < len(msrc) && msrc[b.Num] == b {
 				stats["revert-of-live-block"]++
+				stats["live:"+cause]++
 			}
 		case "reset":
 			if field(or.Ask("q", 1)[0], "rv") == "run" {
@@ -803,6 +842,14 @@ func analyse(or *hx.Oracle, o *outcome) (fs []finding, stats map[string]int, mod
 		}
 	}
 	stats["log-entries"] = len(r.log)
+	if os.Getenv("C06_DEBUG") != "" {
+		for i, e := range r.log {
+			if e.K != "ext" {
+				fmt.Fprintf(os.Stderr, "%d:%s:%d ", i, e.K, e.H)
+			}
+		}
+		fmt.Fprintln(os.Stderr)
+	}
 	if rejected {
 		return
 	}
@@ -904,16 +951,18 @@ func scenarios() []*Script {
 		{Name: "stale-head-from-abandoned-fork", Init: 6, NewState: true, Seed: 7, StaleFork: true,
 			Actions: []Action{{At: 40, Kind: "reorg", D: 3, K: 3}},
 			Faults:  []Fault{{At: 90, Kind: "stale"}}},
+		{Name: "reorg-between-out-of-order-responses", Init: 12, NewState: true, Seed: 11, HoldAt: 6, Procs: 4},
 		{Name: "whole-chain-reorg-to-single-block", Init: 4, NewState: true, Seed: 9, Expect: "stuck",
 			Actions: []Action{{At: 40, Kind: "reorg", D: 4, K: 1}}},
 	}
 }
 
 const (
-	classLiveRevertStale = "revert-of-block-still-on-source:stale-latest-header-from-abandoned-fork"
-	classLiveRevert      = "revert-of-block-still-on-source"
-	classStuckWrap       = "no-convergence:source-height-0-remoteHeight-minus-1-wraps"
-	classNoConv          = "no-convergence"
+	classLiveRevertStale    = "revert-of-block-still-on-source:stale-latest-header-from-abandoned-fork"
+	classLiveRevert         = "revert-of-block-still-on-source"
+	classLiveRevertInFlight = "revert-of-block-still-on-source:in-flight-successor-from-replaced-chain"
+	classStuckWrap          = "no-convergence:source-height-0-remoteHeight-minus-1-wraps"
+	classNoConv             = "no-convergence"
 )
 
 func evaluate(c *hx.Ctx, or *hx.Oracle, sc *Script) []finding {
@@ -928,7 +977,10 @@ func evaluate(c *hx.Ctx, or *hx.Oracle, sc *Script) []finding {
 	}
 	if n := stats["revert-of-live-block"]; n > 0 {
 		cl := classLiveRevert
-		if sc.StaleFork && r.hist["fault:stale"] > 0 {
+		switch {
+		case stats["live:successor-replaced"] == n:
+			cl = classLiveRevertInFlight
+		case sc.StaleFork && r.hist["fault:stale"] > 0 && stats["live:latest-header"] == n:
 			cl = classLiveRevertStale
 		}
 		fs = append(fs, finding{cl, fmt.Sprintf("%d block(s) reverted while the source still had them at that height", n), false})
@@ -1017,9 +1069,18 @@ func main() {
 	}
 	for _, sc := range scenarios() {
 		for _, p := range []int{1, 4} {
+			if sc.Procs != 0 && sc.Procs != p {
+				continue
+			}
 			s := *sc
 			s.Procs = p
-			report(&s, evaluate(c, or, &s))
+			fs := evaluate(c, or, &s)
+			// the out-of-order scenario needs two fetchers in flight at the held height: search a few schedules
+			for try := 0; sc.HoldAt > 0 && len(fs) == 0 && try < 14; try++ {
+				s.Seed++
+				fs = evaluate(c, or, &s)
+			}
+			report(&s, fs)
 		}
 	}
 	for i := 0; i < nScripts; i++ {
